@@ -9,7 +9,7 @@ use std::{
     future::Future,
     panic::{catch_unwind, AssertUnwindSafe},
     pin::Pin,
-    sync::{Arc, Mutex, OnceLock},
+    sync::{Mutex, OnceLock},
     task::{Context, Poll, Waker},
 };
 
@@ -90,7 +90,7 @@ struct Slot<R> {
     waker: Option<Waker>,
 }
 
-struct BlockingFuture<R>(Arc<Mutex<Slot<R>>>);
+struct BlockingFuture<R>(std::sync::Arc<Mutex<Slot<R>>>);
 
 impl<R> Future for BlockingFuture<R> {
     type Output = Result<R, SpawnBlockingError>;
@@ -112,7 +112,7 @@ where
     F: FnOnce() -> R + Send + 'static,
     R: Send + 'static,
 {
-    let slot = Arc::new(Mutex::new(Slot {
+    let slot = std::sync::Arc::new(Mutex::new(Slot {
         result: None,
         waker: None,
     }));
@@ -140,4 +140,50 @@ where
         let _ = catch_unwind(AssertUnwindSafe(f));
     });
     (HOOKS.get().unwrap().run_blocking)(job);
+}
+
+/// Reference-counted pointer used by `deadpool-sync` under `--cfg deadpool_verif`: a thin wrapper
+/// around [`std::sync::Arc`] which reports clones, drops and reads of the reference count to the
+/// simulator as schedule points.
+pub struct Arc<T>(std::sync::Arc<T>);
+
+impl<T> Arc<T> {
+    /// See [`std::sync::Arc::new`].
+    pub fn new(value: T) -> Self {
+        Self(std::sync::Arc::new(value))
+    }
+    /// See [`std::sync::Arc::strong_count`].
+    pub fn strong_count(this: &Self) -> usize {
+        let n = std::sync::Arc::strong_count(&this.0);
+        point("sync.arc.post_count");
+        n
+    }
+}
+
+impl<T> Clone for Arc<T> {
+    fn clone(&self) -> Self {
+        let c = Self(self.0.clone());
+        point("sync.arc.post_clone");
+        c
+    }
+}
+
+impl<T> Drop for Arc<T> {
+    fn drop(&mut self) {
+        // the reference is released right after this returns
+        point("sync.arc.pre_drop");
+    }
+}
+
+impl<T> std::ops::Deref for Arc<T> {
+    type Target = T;
+    fn deref(&self) -> &T {
+        &self.0
+    }
+}
+
+impl<T: std::fmt::Debug> std::fmt::Debug for Arc<T> {
+    fn fmt(&self, f: &mut std::fmt::Formatter<'_>) -> std::fmt::Result {
+        self.0.fmt(f)
+    }
 }
